@@ -213,7 +213,7 @@ def inline_helpers(repo, relpath, piece, within=None, exclude=(), depth=3):
                 continue
             def subst(text):
                 for pn, a in zip(params, args):
-                    rep = a if re.fullmatch(r'[A-Za-z_]\w*', a) else '(' + a + ')'
+                    rep = a if re.fullmatch(r'[A-Za-z_]\w*(?:(?:\.|->)[A-Za-z_]\w*)*', a) else '(' + a + ')'
                     text = re.sub(r'(?<![\w.>])' + re.escape(pn) + r'\b', lambda _m, rep=rep: rep, text)
                 return text
             is_void = re.search(r'\bvoid\s*$', d.group(1).strip()) is not None
